@@ -148,6 +148,8 @@ def check(case, ctx):
                 if len(om) == 0 or min(O.ang_diff(float(x), expect[1]) for x in om) > 1e-8 * cond * (40.0 if name == "find_omega" else 1.0) + 1e-9:
                     ctx.fail("constructed-solution-missing/" + name, "%s: g was built from omega=%r eta=%r (2theta=%r chi=%r wedge=%r) but the solver returned %r" % (
                         tag, expect[1], expect[2], tth, chi, wedge, om.tolist()))
+    ctx.later("tools.find_omega_general", tools.find_omega_general, np.array(g), tth, chi, wedge)
+    ctx.later("laue.find_omega_wedge", laue.find_omega_wedge, np.array(g) * case["scale"], tth, wedge)
     ctx.nontrivial(both and any_two)
     # agreement where the tilts coincide
     def same(a, b):
